@@ -46,16 +46,16 @@ type Stream struct {
 type Op struct {
 	Proto    string   `json:"proto"` // loki-json | loki-json-entries | loki-proto | prom-rw | influx | ...
 	Streams  []Stream `json:"streams"`
-	ThinkMs  int64    `json:"think_ms"`  // sleep before the request
-	Frag     []int    `json:"frag"`      // body fragment sizes (cycled); empty = one piece
-	StallUs  int64    `json:"stall_us"`  // sleep between fragments
-	Hostile  string   `json:"hostile"`   // "" or hostile recipes joined by '+'
-	HostileN int      `json:"hostile_n"` // parameter of the recipes
-	CancelMs int64    `json:"cancel_ms"` // >0: client goes away after that long
-	Restart  bool     `json:"restart"`   // not a request: restart the writer process (crash, durable DB state survives)
-	Enc      string   `json:"enc,omitempty"`   // honest transfer encoding of the whole body: "" | gzip | snappy (framed stream format)
+	ThinkMs  int64    `json:"think_ms"`          // sleep before the request
+	Frag     []int    `json:"frag"`              // body fragment sizes (cycled); empty = one piece
+	StallUs  int64    `json:"stall_us"`          // sleep between fragments
+	Hostile  string   `json:"hostile"`           // "" or hostile recipes joined by '+'
+	HostileN int      `json:"hostile_n"`         // parameter of the recipes
+	CancelMs int64    `json:"cancel_ms"`         // >0: client goes away after that long
+	Restart  bool     `json:"restart"`           // not a request: restart the writer process (crash, durable DB state survives)
+	Enc      string   `json:"enc,omitempty"`     // honest transfer encoding of the whole body: "" | gzip | snappy (framed stream format)
 	TTLHdr   string   `json:"ttl_hdr,omitempty"` // X-Ttl-Days header value
-	Retry    int      `json:"retry,omitempty"` // the client sends the same body again (up to that many times) when it is answered 5xx
+	Retry    int      `json:"retry,omitempty"`   // the client sends the same body again (up to that many times) when it is answered 5xx
 }
 
 // Client is an actor issuing operations sequentially.
